@@ -51,6 +51,18 @@ def frac(n, d):
     return None if d == 0 else Fraction(n, d)
 
 
+def storage_perm(case, n, k=0):
+    """permutation of the dims in which variable number k of the case is stored (identity for 1 case in 3)"""
+    h = int(case.get("num", 0)) + int(case.get("anum", 0)) + k
+    ident = tuple(range(n))
+    if n < 2 or h % 3 == 0:
+        return ident
+    cands = [tuple(reversed(ident)), ident[1:] + ident[:1], ident[2:] + ident[:2], (1, 0) + ident[2:],
+             ident[:-2] + (ident[-1], ident[-2])]
+    cands = [c for c in cands if c != ident]
+    return cands[(h // 3) % len(cands)]
+
+
 def build_call(case):
     """-> (ds, args, kwargs) for xyz.infiniplot(ds, *args, **kwargs)"""
     import xarray as xr
@@ -85,7 +97,17 @@ def build_call(case):
     else:
         data = {"xv": var(2 * cells, case["ynull"])}
         args = ("xv",)
-    ds = xr.Dataset(data, coords=coords)
+    # data refinement: the same abstract dataset, but (for 2 cases in 3) every variable is *stored* with its
+    # dims in a non-identity permutation of tuple(ds.dims) - coordinates first, then the variable assigned
+    # with permuted dims.  Nothing the property talks about depends on the storage layout.
+    ds = xr.Dataset(coords=coords)
+    for k, (name, (dd, a)) in enumerate(data.items()):
+        perm = storage_perm(case, n, k)
+        ds[name] = (tuple(dd[i] for i in perm), np.ascontiguousarray(np.transpose(a, perm)))
+        if perm != tuple(range(n)):
+            assert ds[name].dims != tuple(ds.sizes) and ds[name].shape == tuple(sizes[i] for i in perm)
+        assert np.array_equal(ds[name].transpose(*dims).values, a, equal_nan=True)
+    assert tuple(ds.sizes) == tuple(dims), (tuple(ds.sizes), dims)
 
     for p, t in zip(PROPS, case["pm"]):
         if not t:
